@@ -77,9 +77,26 @@ Definition entry_eqb (a b : option (val * N)) : bool :=
   | _, _ => false
   end.
 
+(* linear-time form of Cas.wrun (which recomputes the tail for each projection) *)
+Fixpoint wrun_fast (pe me ce de : list ev) (s : bstore) (h : list (gen * N * hop)) : bstore * list outcome :=
+  match h with
+  | [] => (s, [])
+  | (g, t, op) :: r =>
+      let '(s', o) := w_step pe me ce de s g t op in
+      let '(sf, os) := wrun_fast pe me ce de s' r in
+      (sf, o :: os)
+  end.
+
+Lemma wrun_fast_eq pe me ce de h : forall s, wrun_fast pe me ce de s h = wrun pe me ce de s h.
+Proof.
+  induction h as [|[[g t] op] r IH]; intros s; simpl; [reflexivity|].
+  destruct (w_step pe me ce de s g t op) as [s' o] eqn:E. simpl.
+  rewrite IH. destruct (wrun pe me ce de s' r); reflexivity.
+Qed.
+
 Definition hist_run (enc : bool) (h : list (gen * N * hop)) : bstore * list outcome :=
-  if enc then wrun enc_put_events enc_multipart_events enc_copy_events delete_events [] h
-  else wrun meta_put_events meta_multipart_events meta_copy_events delete_events [] h.
+  if enc then wrun_fast enc_put_events enc_multipart_events enc_copy_events delete_events [] h
+  else wrun_fast meta_put_events meta_multipart_events meta_copy_events delete_events [] h.
 
 (* the history of mutating calls on an empty store: observed outcomes and final (value, token) per key *)
 Definition run_hist (c : bool * list (gen * N * hop) * list outcome * list (key * option (val * N)))
